@@ -219,6 +219,8 @@ type agWorld struct {
 	prevDrift, prevRefused map[string]bool
 	// bookkeeping when the sync started
 	preSvc, preChk map[string]local.VerifEntry
+	// tags the catalog held, per service, when the full sync in progress fetched it (nil: no complete fetch yet)
+	fetchTags, tagsAtFetch map[string][]string
 
 	viol *simkit.Violation
 }
@@ -291,8 +293,12 @@ func (d agDelegate) RPC(_ context.Context, method string, args interface{}, repl
 				return err
 			}
 			out := structs.IndexedNodeServiceList{}
+			w.fetchTags, w.tagsAtFetch = map[string][]string{}, nil
 			if list != nil {
 				out.NodeServices = *list
+				for _, sv := range list.Services {
+					w.fetchTags[sv.ID] = append([]string{}, sv.Tags...)
+				}
 			}
 			out.Index = atLeastOne(idx)
 			wire(&out, reply)
@@ -304,6 +310,7 @@ func (d agDelegate) RPC(_ context.Context, method string, args interface{}, repl
 			out := structs.IndexedHealthChecks{HealthChecks: checks}
 			out.Index = atLeastOne(idx)
 			wire(&out, reply)
+			w.tagsAtFetch = w.fetchTags // both halves of the remote state are in: the diff follows
 		}
 		return nil
 	case "Catalog.Register":
@@ -332,6 +339,15 @@ func (d agDelegate) RPC(_ context.Context, method string, args interface{}, repl
 		sort.Strings(subjects)
 		sort.Strings(all)
 		desc := "Register(" + strings.Join(all, ",") + ")"
+		// Under EnableTagOverride the servers own the tags: what a full sync pushes for such a service carries
+		// the tags it has just fetched, whatever else it corrects.
+		if sv := req.Service; sv != nil && sv.EnableTagOverride && w.inSync == "full" && w.tagsAtFetch != nil && w.viol == nil {
+			if had, ok := w.tagsAtFetch[sv.ID]; ok && fmt.Sprint(had) != fmt.Sprint(sv.Tags) {
+				w.viol = &simkit.Violation{Property: "C16", Class: "tag-override-lost", Invariant: "full-sync-keeps-server-owned-tags", Step: w.pc, Culprit: "service",
+					Detail: fmt.Sprintf("service %s has EnableTagOverride; the catalog held tags %v when this full sync fetched it, the sync registers it with tags %v", sv.ID, had, sv.Tags)}
+			}
+			w.r.Hit("probe.tag-override-push-judged")
+		}
 		// ACL: service:write for the service and its checks, node:write for node info and node checks
 		if what := w.registerRefused(&req, checks); what != "" {
 			w.r.Hit("fault.register-refused-by-acl")
@@ -515,6 +531,7 @@ func (w *agWorld) flushBurst() {
 
 func (w *agWorld) beginSync(kind string) {
 	w.inSync, w.syncEvents, w.midChange, w.fetchFailed, w.anyFault = kind, nil, false, false, false
+	w.fetchTags, w.tagsAtFetch = nil, nil
 	w.preSvc, w.preChk, _ = local.VerifDump(w.L)
 }
 
